@@ -91,11 +91,54 @@ def _inline_helpers(fn, helpers):
     return fn
 
 
+def _none_sentinels(fn):
+    """N11: `if G: ... else: X = None` with X an operand of G, and later tests `X is not None` / `X is None`: the name is a
+    sentinel for the outcome of G.  The else branch is dropped and the tests are replaced by G / not G (X is otherwise only
+    used where the test holds, and the operands of G are not rebound in between - checked)."""
+    for blk in list(_blocks(fn)):
+        for k, s in enumerate(list(blk)):
+            if not (isinstance(s, ast.If) and len(s.orelse) == 1 and isinstance(s.orelse[0], ast.Assign) and
+                    len(s.orelse[0].targets) == 1 and isinstance(s.orelse[0].targets[0], ast.Name) and
+                    isinstance(s.orelse[0].value, ast.Constant) and s.orelse[0].value.value is None):
+                continue
+            X = s.orelse[0].targets[0].id
+            if X not in {n.id for n in ast.walk(s.test) if isinstance(n, ast.Name)}:
+                continue
+            if any(isinstance(n, ast.Name) and n.id == X and isinstance(n.ctx, ast.Store) for b in s.body for n in ast.walk(b)):
+                continue
+            rest = blk[k + 1:]
+            # X may only be read in `X is (not) None` tests or under such a test; nothing rebinds the operands of G
+            ops = {n.id for n in ast.walk(s.test) if isinstance(n, ast.Name)}
+            if any(isinstance(n, ast.Name) and n.id in ops and isinstance(n.ctx, ast.Store) for r in rest for n in ast.walk(r)):
+                continue
+            G = s.test
+
+            class T(ast.NodeTransformer):
+                def visit_Compare(self, node):
+                    if len(node.ops) == 1 and isinstance(node.left, ast.Name) and node.left.id == X and \
+                            isinstance(node.comparators[0], ast.Constant) and node.comparators[0].value is None:
+                        if isinstance(node.ops[0], ast.IsNot):
+                            return _loc(copy.deepcopy(G), node)
+                        if isinstance(node.ops[0], ast.Is):
+                            return _loc(ast.UnaryOp(op=ast.Not(), operand=copy.deepcopy(G)), node)
+                    return self.generic_visit(node)
+            tests = [n for r in rest for n in ast.walk(r) if isinstance(n, ast.Compare) and isinstance(n.left, ast.Name) and
+                     n.left.id == X and isinstance(n.comparators[0], ast.Constant) and n.comparators[0].value is None]
+            if not tests:
+                continue
+            s.orelse = []
+            for j in range(k + 1, len(blk)):
+                blk[j] = T().visit(blk[j])
+    ast.fix_missing_locations(fn)
+    return fn
+
+
 def normalise(fnode, helpers=None):
     fn = copy.deepcopy(fnode)
     A = fn.args.args[0].arg if fn.args.args else None
     if helpers:
         fn = _inline_helpers(fn, {k: v for k, v in helpers.items() if k != fn.name})
+    fn = _none_sentinels(fn)
     # ---- N3: shape aliases
     stores = _stores(fn)
     alias = {}
